@@ -52,7 +52,7 @@ class Emitter:
 
     def dct(self, d: Dict[str, Any], key_ids: Dict[str, str]) -> str:
         base = BASE[d["base"]]
-        enc = None if d["enc"] == "NONE" else d["enc"]
+        enc = None if d["enc"] in ("NONE", "DEFAULT") else d["enc"]
         if d["k"] == "std":
             return og.dct_standard(base, d["bits"], enc=enc, hilo=d["hilo"])
         if d["k"] == "minmax":
@@ -75,6 +75,17 @@ class Emitter:
             oid, name = self.uid("ST")
             params = self.params(d["ps"], f"{oid}.")
             self.layer.structures.append(og.structure(oid, name, params, bytesize=None if d["bs"] < 0 else d["bs"]))
+            return oid
+        if k == "mux":
+            oid, name = self.uid("MUX")
+            kid, kname = self.uid("DOP")
+            self.layer.dops.append(og.dop(kid, kname, self.dct(d["kdct"], key_ids), ptype=BASE[d["kdct"]["base"]]))
+            cases = [(c["n"], c["lo"], c["hi"], self.dop(c["st"], key_ids) if c["st"]["k"] != "none" else None) for c in d["cases"]]
+            dflt = None
+            if d["hasdflt"]:
+                dflt = (d["dflt"]["n"], self.dop(d["dflt"]["st"], key_ids) if d["dflt"]["st"]["k"] != "none" else None)
+            self.layer.muxs.append(og.mux(oid, name, d["bp"], d["kbp"], kid, cases, default=dflt,
+                                          key_bitpos=d["kbit"] if d["kbit"] else None))
             return oid
         sid = self.dop(d["st"], key_ids)
         if k == "sfield":
@@ -118,6 +129,8 @@ class Emitter:
                 out.append(og.p_matching(p["n"], p["rq"], p["len"], bytepos=bp))
             elif k == "NRC-CONST":
                 out.append(og.p_nrc(p["n"], [v["v"] for v in p["cvs"]], self.dct(p["dct"], key_ids), bytepos=bp, bitpos=bi))
+            elif k == "SYSTEM":
+                out.append(og.p_system(p["n"], p["sys"], self.dop(p["dop"], key_ids), bytepos=bp, bitpos=bi))
             elif k == "LENGTH-KEY":
                 out.append(og.p_lengthkey(p["n"], key_ids[p["n"]], self.dop(p["dop"], key_ids), bytepos=bp, bitpos=bi))
             else:
@@ -154,7 +167,7 @@ def bits_int(bits: List[int], base: str, enc: str) -> int:
         return u
     if n == 0 or bits[0] == 0:
         return u
-    if enc == "2C":
+    if enc in ("2C", "DEFAULT"):
         return u - (1 << n)
     if enc == "1C":
         return -((1 << n) - 1 - u)
@@ -201,6 +214,12 @@ def dop_py(d: Dict[str, Any], v: Dict[str, Any]) -> Any:
         return atom_py(v, d["dct"])
     if k == "struct":
         return dict_py(d["ps"], v)
+    if k == "mux":
+        cs = list(d["cases"]) + ([d["dflt"]] if d["hasdflt"] else [])
+        c = next((x for x in cs if x["n"] == v["a"]), None)
+        if c is None or c["st"]["k"] == "none":
+            return (v["a"], {})
+        return (v["a"], dop_py(c["st"], v["b"]))
     if v["t"] == "list":
         return [dop_py(d["st"], x) for x in v["v"]]
     return atom_py(v, None)
@@ -307,6 +326,9 @@ def shape(ps: List[Dict[str, Any]]) -> Dict[str, Any]:
             if d["bs"] >= 0:
                 dops.append("bytesize")
             walk(d["ps"])
+        elif k == "mux":
+            for c in d["cases"]:
+                walk_dop(c["st"])
         else:
             walk_dop(d["st"])
 
